@@ -201,7 +201,7 @@ cleanup_pthread:
 void
 qb_log_thread_pause(struct qb_log_target *t)
 {
-	if (t->threaded) {
+	if (t->threaded && logt_wthread_lock != NULL) {
 		(void)qb_thread_lock(logt_wthread_lock);
 	}
 }
@@ -209,7 +209,7 @@ qb_log_thread_pause(struct qb_log_target *t)
 void
 qb_log_thread_resume(struct qb_log_target *t)
 {
-	if (t->threaded) {
+	if (t->threaded && logt_wthread_lock != NULL) {
 		(void)qb_thread_unlock(logt_wthread_lock);
 	}
 }
@@ -221,6 +221,12 @@ qb_log_thread_log_post(struct qb_log_callsite *cs,
 	struct qb_log_record *rec;
 	size_t buf_size;
 	size_t total_size;
+
+	if (logt_wthread_lock == NULL) {
+		/* no logging thread (not started yet, or stopped): write directly */
+		qb_log_thread_log_write(cs, timestamp, buffer);
+		return;
+	}
 
 	rec = malloc(sizeof(struct qb_log_record));
 	if (rec == NULL) {
